@@ -1,5 +1,6 @@
 """Models of the numpy calls of OrdinalCategoricalDissimilarity.__init__ (trusted base of C04, ordinal / numerical family):
 
+   np.array(SortedSet of str)  the array of its elements in ascending order
    np.array(xs, dtype=str)     the same sequence of strings            np.arange(n, dtype=T)    the array 0, 1, .., n-1
    np.unique(xs)               a sequence with no more elements than xs, with exactly as many iff xs has no duplicate
    np.array(list(ss), dtype=np.float32)  for a PARAMETER ss the contract types as StrListOf (a list of strings, never re-assigned):
@@ -17,7 +18,7 @@ NUMVAL = z3.Function("numval", R, R)                      # the number it denote
 TRUSTED_PARSE = ("model:numpy np.array(list of strings, dtype=np.float32): ValueError iff some string is not a number literal, else the "
                  "array of the numbers they denote (float32 rounding: S2)")
 
-TRUSTED = ("model:numpy np.array(list, dtype=str) = the list; np.unique(xs): len <= len(xs), equal iff xs has no duplicate; np.arange; "
+TRUSTED = ("model:numpy np.array(list, dtype=str) = the list; np.array(SortedSet) = its ascending enumeration; np.unique(xs): len <= len(xs), equal iff xs has no duplicate; np.arange; "
            "np.argsort(xs) = a permutation sorting xs (non-decreasing), with its inverse")
 
 
@@ -51,6 +52,16 @@ def npsort(self, e, st, spec):
             st.assume(z3.ForAll(k, data[k] == NUMVAL(xs[k]), patterns=[data[k]]))
             self.used_models.add(TRUSTED_PARSE)
             return Arr(data, [n], self.dtype_of(kw["dtype"]))
+        return NotImplemented
+    if name == "np.array" and len(e.args) == 1 and not kw:
+        from ..heap import set_of, wf_set
+        v = self.ev(e.args[0], st, spec)
+        s_ = set_of(self, st, v) if isinstance(v, V.Ref) else None
+        if s_ is not None and s_["elem"] == R:
+            # np.array(SortedSet of strings): the array of its elements in ascending order (string codes carried as reals)
+            st.assume(*wf_set(s_["mem"], s_["n"], s_["seq"], s_["idx"]))
+            self.used_models.add(TRUSTED)
+            return Arr(s_["seq"], [s_["n"]], "f64")
         return NotImplemented
     if name == "np.unique" and len(e.args) == 1 and not kw:
         v = self.ev(e.args[0], st, spec)
